@@ -68,13 +68,115 @@ func (w *recWriter) Write(filename, content string) error {
 // generate runs the real generator under st (nil = no simulation: natural map order,
 // real clock).
 func generate(p *poolEntry, st *zzsim.State, keep bool) (*recWriter, error) {
+	return generateIn(p, st, keep, envChoice{}, false)
+}
+
+// envChoice is what the process environment looks like during one generation: the
+// simulator owns it the way it owns map order and the clock.
+type envChoice struct {
+	path   int // 0 inherited, 1 a PATH holding nothing, 2 fake formatters ahead of the inherited PATH
+	cwd    int // 0 inherited, 1 the grammar's directory, 2 the file system root
+	locale int // 0 inherited, 1 LANG/LC_ALL=tr_TR.UTF-8 TZ=Asia/Kolkata, 2 LANG=C TZ=America/St_Johns
+}
+
+func (e envChoice) String() string {
+	return fmt.Sprintf("PATH=%s cwd=%s locale=%s", [...]string{"inherited", "empty", "fake-formatters-first"}[e.path],
+		[...]string{"inherited", "grammar-dir", "/"}[e.cwd], [...]string{"inherited", "tr_TR/Kolkata", "C/St_Johns"}[e.locale])
+}
+
+// scratchHome is this process's private HOME / cache / temp directory: whatever the
+// generator leaves in the user's directories stays inside the run and is part of its history.
+var scratchHome string
+
+func setupHome() {
+	base := os.Getenv("ZZ_DETSIM_SCRATCH") // the driver's scratch directory: removed when the check ends
+	if base == "" {
+		base = "/var/tmp"
+	}
+	d, err := os.MkdirTemp(base, "zzdetsim-home.")
+	if err != nil {
+		return
+	}
+	scratchHome = d
+	for _, sub := range []string{".cache", ".config", "tmp", "emptybin", "fakebin", "overlay"} {
+		os.MkdirAll(filepath.Join(d, sub), 0o755)
+	}
+	os.Setenv("HOME", d)
+	os.Setenv("XDG_CACHE_HOME", filepath.Join(d, ".cache"))
+	os.Setenv("XDG_CONFIG_HOME", filepath.Join(d, ".config"))
+	os.Setenv("TMPDIR", filepath.Join(d, "tmp"))
+	// formatters that visibly change what they are given
+	for _, tool := range []string{"gofmt", "goimports", "clang-format", "prettier"} {
+		os.WriteFile(filepath.Join(d, "fakebin", tool), []byte("#!/bin/sh\ncat\necho '// zz-fake-formatter-was-here'\n"), 0o755)
+	}
+	// a template overlay (textmapper generate -i <dir>) that replaces the header of every file
+	for _, lang := range []string{"go", "cc", "ts"} {
+		os.WriteFile(filepath.Join(d, "overlay", lang+"_shared.go.tmpl"), []byte("{{define \"header\" -}}\n// generated for the simulator's overlay; DO NOT EDIT\n\n{{end}}\n"), 0o644)
+	}
+}
+
+func cleanupHome() {
+	if scratchHome != "" {
+		os.RemoveAll(scratchHome)
+	}
+}
+
+func generateIn(p *poolEntry, st *zzsim.State, keep bool, env envChoice, overlay bool) (*recWriter, error) {
 	w := &recWriter{}
 	if keep {
 		w.content = map[string]string{}
 	}
+	var undo []func()
+	setenv := func(k, v string) {
+		old, had := os.LookupEnv(k)
+		os.Setenv(k, v)
+		undo = append(undo, func() {
+			if had {
+				os.Setenv(k, old)
+			} else {
+				os.Unsetenv(k)
+			}
+		})
+	}
+	if scratchHome != "" {
+		switch env.path {
+		case 1:
+			setenv("PATH", filepath.Join(scratchHome, "emptybin"))
+		case 2:
+			setenv("PATH", filepath.Join(scratchHome, "fakebin")+string(os.PathListSeparator)+os.Getenv("PATH"))
+		}
+	}
+	switch env.locale {
+	case 1:
+		setenv("LANG", "tr_TR.UTF-8")
+		setenv("LC_ALL", "tr_TR.UTF-8")
+		setenv("TZ", "Asia/Kolkata")
+	case 2:
+		setenv("LANG", "C")
+		setenv("LC_ALL", "C")
+		setenv("TZ", "America/St_Johns")
+	}
+	if env.cwd != 0 {
+		if old, err := os.Getwd(); err == nil {
+			dir := "/"
+			if env.cwd == 1 {
+				dir = filepath.Dir(p.Path)
+			}
+			if os.Chdir(dir) == nil {
+				undo = append(undo, func() { os.Chdir(old) })
+			}
+		}
+	}
+	opts := gen.Options{}
+	if overlay && scratchHome != "" {
+		opts.IncludeDirs = []string{filepath.Join(scratchHome, "overlay")}
+	}
 	zzsim.Install(st)
-	_, err := gen.GenerateFile(context.Background(), p.Path, w, gen.Options{})
+	_, err := gen.GenerateFile(context.Background(), p.Path, w, opts)
 	zzsim.Install(nil)
+	for i := len(undo) - 1; i >= 0; i-- {
+		undo[i]()
+	}
 	return w, err
 }
 
@@ -114,6 +216,8 @@ type stepDesc struct {
 	Mode     string            `json:"mode"`
 	Policies map[string]string `json:"permuted_sites,omitempty"`
 	Epoch    string            `json:"clock_epoch"`
+	Env      string            `json:"environment"`
+	Overlay  bool              `json:"template_overlay,omitempty"`
 	Jumps    []string          `json:"clock_jumps,omitempty"`
 }
 
@@ -225,6 +329,30 @@ func (engine) Run(src *sim.Src, log *sim.Log, res *sim.Result) {
 			}
 		}
 	}
+	// the same grammar under a template overlay first (`-i dir`), then plainly: anything
+	// remembered about a grammar (in the process or in the user's directories, which live as
+	// long as this run) that is keyed without the options shows here. Large grammars are
+	// preferred: caches tend to engage above a size threshold.
+	overlayFirst := false
+	if planned == nil && src.Chance(1, 12) {
+		cands := append([]int{}, light...)
+		sort.Slice(cands, func(i, j int) bool { return fileSize(cfg.Pool[cands[i]].Path) > fileSize(cfg.Pool[cands[j]].Path) })
+		k := len(cands)
+		if src.Chance(1, 2) && k >= 8 {
+			k /= 4
+		}
+		a := cands[src.Draw(k)]
+		planned = []int{a, a}
+		overlayFirst = true
+	}
+	// a generation whose output is large enough to leave the formatter's fast path
+	if planned == nil && src.Chance(1, 30) {
+		for _, i := range heavy {
+			if strings.Contains(cfg.Pool[i].ID, "huge") {
+				planned = []int{i}
+			}
+		}
+	}
 	if planned != nil {
 		n = len(planned)
 	}
@@ -304,9 +432,21 @@ func (engine) Run(src *sim.Src, log *sim.Log, res *sim.Result) {
 			st.Jumps = append(st.Jumps, d)
 			desc.Jumps = append(desc.Jumps, d.String())
 		}
+		env := envChoice{path: src.Pick(60, 15, 25), cwd: src.Pick(70, 15, 15), locale: src.Pick(70, 15, 15)}
+		overlay := overlayFirst && s == 0
+		desc.Env = env.String()
+		desc.Overlay = overlay
 		steps = append(steps, desc)
+		if env != (envChoice{}) {
+			res.Fault("environment-varied")
+			for _, kv := range strings.Fields(env.String()) {
+				if !strings.HasSuffix(kv, "=inherited") {
+					res.Probe("env:" + kv)
+				}
+			}
+		}
 
-		w, err := generate(p, st, p.Committed)
+		w, err := generateIn(p, st, p.Committed, env, overlay)
 		res.Steps++
 		// probes: per-site reach
 		for site, ss := range st.Stats {
@@ -326,10 +466,16 @@ func (engine) Run(src *sim.Src, log *sim.Log, res *sim.Result) {
 		if s > 0 {
 			res.Probe("generation-with-history")
 		}
+		if overlay {
+			// not compared: it only has to have happened before the plain generation
+			log.Printf("step %d: %s under a template overlay, files=%d err=%q", s, p.ID, len(w.files), errText(err))
+			res.Probe("generation-under-template-overlay")
+			continue
+		}
 		ok, first := sameFiles(ref.Files, w.files)
-		log.Printf("step %d: %s mode=%s files=%d err=%q same=%v", s, p.ID, desc.Mode, len(w.files), errText(err), ok)
+		log.Printf("step %d: %s mode=%s env=[%s] files=%d err=%q same=%v", s, p.ID, desc.Mode, env, len(w.files), errText(err), ok)
 		if errText(err) != ref.Err || !ok {
-			explain(p, st, w, err, ref, first, hist, res)
+			explain(p, st, w, err, ref, first, hist, env, res)
 			break
 		}
 		if p.Committed && err == nil {
@@ -343,7 +489,7 @@ func (engine) Run(src *sim.Src, log *sim.Log, res *sim.Result) {
 		if res.Violation == nil && !p.Heavy && src.Chance(1, 4) {
 			st2 := *st
 			st2.Stats = nil
-			w2, err2 := generate(p, &st2, false)
+			w2, err2 := generateIn(p, &st2, false, env, false)
 			res.Probe("twin-execution-compared")
 			if ok2, first2 := sameFiles(w.files, w2.files); !ok2 || errText(err2) != errText(err) {
 				res.Fail("C18.unowned", p.ID+":"+first2,
@@ -415,10 +561,27 @@ func sortedPol(m map[string]string) []string {
 
 // explain re-runs the failing step keeping contents, and the all-ascending reference in
 // this very process, to say what differs and whether order/clock or history is to blame.
-func explain(p *poolEntry, st *zzsim.State, w *recWriter, err error, ref *refEntry, first string, hist []string, res *sim.Result) {
+func explain(p *poolEntry, st *zzsim.State, w *recWriter, err error, ref *refEntry, first string, hist []string, env envChoice, res *sim.Result) {
 	refSt := &zzsim.State{Epoch: time.Unix(0, 0).UTC()}
 	rw, rerr := generate(p, refSt, true)
 	refHere, _ := sameFiles(ref.Files, rw.files)
+	if refHere && errText(rerr) == ref.Err && env != (envChoice{}) {
+		// every map ascending and the clock at zero, but in the varied environment
+		ew, eerr := generateIn(p, &zzsim.State{Epoch: time.Unix(0, 0).UTC()}, true, env, false)
+		if same, f := sameFiles(rw.files, ew.files); !same || errText(eerr) != errText(rerr) {
+			d := ""
+			if f != "" {
+				d = boundedDiff(rw.content[f], ew.content[f])
+				if len(d) > 1500 {
+					d = d[:1500] + "\n..."
+				}
+			}
+			res.Fail("C18.environment", p.ID+":"+f,
+				"grammar %s: file %q (error %q vs %q) differs between two generations in this process that differ only in the process environment (%s): the generated bytes depend on the machine the generator runs on\n%s",
+				p.ID, f, errText(eerr), errText(rerr), env, d)
+			return
+		}
+	}
 	if !refHere || errText(rerr) != ref.Err {
 		res.Fail("C18.history", p.ID+":"+first,
 			"grammar %s: regenerated with every map in ascending order and the clock at zero after the history %v, the output differs from the same generation in a fresh process (first differing file %q, error %q vs %q): an earlier generation in this process leaks into this one",
@@ -435,7 +598,7 @@ func explain(p *poolEntry, st *zzsim.State, w *recWriter, err error, ref *refEnt
 	}
 	d := ""
 	if first != "" {
-		d = diff.LineDiff(rw.content[first], gw.content[first])
+		d = boundedDiff(rw.content[first], gw.content[first])
 		if len(d) > 1500 {
 			d = d[:1500] + "\n..."
 		}
@@ -467,7 +630,7 @@ func checkCommitted(p *poolEntry, w *recWriter, res *sim.Result) {
 			return
 		}
 		if string(disk) != w.content[f.Name] {
-			d := diff.LineDiff(string(disk), w.content[f.Name])
+			d := boundedDiff(string(disk), w.content[f.Name])
 			if len(d) > 1500 {
 				d = d[:1500] + "\n..."
 			}
@@ -478,15 +641,54 @@ func checkCommitted(p *poolEntry, w *recWriter, res *sim.Result) {
 	res.Probe("committed-files-compared")
 }
 
+// boundedDiff is diff.LineDiff for contents of ordinary size; for very large ones (the
+// line diff is quadratic) it shows the first differing line instead.
+func boundedDiff(a, b string) string {
+	if len(a) < 400_000 && len(b) < 400_000 {
+		return diff.LineDiff(a, b)
+	}
+	la, lb := strings.Split(a, "\n"), strings.Split(b, "\n")
+	for i := 0; i < len(la) || i < len(lb); i++ {
+		var x, y string
+		if i < len(la) {
+			x = la[i]
+		}
+		if i < len(lb) {
+			y = lb[i]
+		}
+		if x != y {
+			return fmt.Sprintf("contents of %d and %d bytes, %d and %d lines; first difference at line %d:\n-%.200s\n+%.200s", len(a), len(b), len(la), len(lb), i+1, x, y)
+		}
+	}
+	return ""
+}
+
+func fileSize(path string) int64 {
+	fi, err := os.Stat(path)
+	if err != nil {
+		return 0
+	}
+	return fi.Size()
+}
+
 func main() {
+	os.Exit(realMain())
+}
+
+func realMain() int {
+	// children and reference runs do the generating: each gets a private HOME
+	if len(os.Args) >= 2 && (os.Args[1] == "-ref" || os.Args[1] == "-child" || os.Args[1] == "-serve" || os.Args[1] == "-replay") || os.Getenv("ZZ_DETSIM_HOME_ALWAYS") != "" {
+		setupHome()
+		defer cleanupHome()
+	}
 	b, err := os.ReadFile(os.Getenv("ZZ_DETSIM_SETUP"))
 	if err != nil {
 		fmt.Fprintln(os.Stderr, "detsim: ZZ_DETSIM_SETUP:", err)
-		os.Exit(2)
+		return 2
 	}
 	if err := json.Unmarshal(b, &cfg); err != nil {
 		fmt.Fprintln(os.Stderr, "detsim: setup:", err)
-		os.Exit(2)
+		return 2
 	}
 	if len(os.Args) >= 3 && os.Args[1] == "-ref" {
 		// reference mode: one grammar, fresh process. With zzsim compiled in, every map is
@@ -500,10 +702,11 @@ func main() {
 			w, err := generate(&cfg.Pool[i], st, false)
 			out, _ := json.Marshal(&refEntry{ID: os.Args[2], Files: w.files, Err: errText(err)})
 			fmt.Println(string(out))
-			return
+			return 0
 		}
 		fmt.Fprintln(os.Stderr, "detsim: unknown grammar", os.Args[2])
-		os.Exit(2)
+		return 2
 	}
 	sim.Main(engine{}, os.Args[1:])
+	return 0
 }
